@@ -57,6 +57,9 @@ fn main() {
         println!("{tm}");
         return;
     }
+    if cmd == "c20-child" {
+        std::process::exit(props::c20::child_main(&args[2], &args[3]));
+    }
     if cmd == "det-child" {
         std::process::exit(props::c14::child_main(&args[2], args[3].parse().unwrap_or(0)));
     }
